@@ -878,6 +878,10 @@ func enccookieMain(s *simrt.Sim, info *harness.RunInfo) {
 		start := s.Draw(len(pool))
 		for i := 0; i < c.plan.ncook; i++ {
 			ck := &ecCookie{name: pool[(start+i*simrt.PickS(s, 1, 3, 5))%len(pool)] + suffix[ci], usable: true}
+			if s.Chance(100) {
+				// a long name (64 bytes and more): the length is part of what a name is compared by
+				ck.name = strings.Repeat("x", simrt.PickS(s, 60, 61, 76, 124)) + "-" + ck.name
+			}
 			dup := false
 			for _, o := range c.cookies {
 				if o.name == ck.name {
